@@ -377,17 +377,39 @@ class ProductState:
             einsum, operators[outcome], ps, jnp.conj(operators[outcome])
         ).reshape((new_dims, new_dims))
         self.state = ps / jnp.trace(ps)
-        other_outcomes = {}
+        other_outcomes: Dict["BaseState", int] = {}
         if destructive:
-            # Get correct Composite Envelope
-            if isinstance(
-                CompositeEnvelope._instances[self.container.composite_uid], list
-            ):
-                other_outcomes = CompositeEnvelope._instances[
-                    self.container.composite_uid
-                ][0].measure(*states)
-                for s in states:
-                    del other_outcomes[s]
+            from photon_weave.state.custom_state import CustomState
+
+            # The measured states are discarded: they are traced out of the
+            # product state (custom states are never destroyed, they stay)
+            discard = [s for s in states if not isinstance(s, CustomState)]
+            if len(discard) > 0:
+                remaining = [
+                    so for so in self.state_objs if not any(so is d for d in discard)
+                ]
+                if len(remaining) > 0:
+                    self.state = self.trace_out(*remaining)
+                else:
+                    self.state = jnp.array([[1]])
+                self.state_objs = remaining
+                for d in discard:
+                    d._set_measured()
+                self.container.remove_empty_product_states()
+                self.container.update_all_indices()
+            # The other part of a measured envelope is measured as well
+            for d in discard:
+                envelope = getattr(d, "envelope", None)
+                if envelope is None:
+                    continue
+                partner = envelope.fock if d is envelope.polarization else (
+                    envelope.polarization
+                )
+                if not partner.measured and not any(partner is s for s in states):
+                    out = partner.measure(separate_measurement=True, destructive=True)
+                    for k, v in out.items():
+                        other_outcomes[k] = v
+                envelope._set_measured()
         if C.contractions:
             self.contract()
         return (outcome, other_outcomes)
